@@ -60,6 +60,19 @@ def stubs():
             return SymNum(-z3.ToInt(-x.e))
         return builtins.int(x)
     lattice_ecp5.int = sym_int
+    import math
+    if not getattr(math.isclose, "_vf", False):
+        real_isclose = math.isclose
+
+        def sym_isclose(a, b, *, rel_tol=1e-09, abs_tol=0.0):
+            # documented definition of math.isclose over the reals: |a-b| <= max(rel_tol*max(|a|,|b|), abs_tol)
+            if not (isinstance(a, Sym) or isinstance(b, Sym)):
+                return real_isclose(a, b, rel_tol=rel_tol, abs_tol=abs_tol)
+            d = abs(a - b)
+            rt, at = Fraction(rel_tol), Fraction(abs_tol)
+            return bool(OR(d <= abs(a) * rt, d <= abs(b) * rt, d <= at))
+        sym_isclose._vf = True
+        math.isclose = sym_isclose
 
 
 def absr(x):
@@ -88,7 +101,7 @@ def job_xilinx(modname, clsname, ckw, win, nout, margin, tag):
     """win = dict(divclk=(lo, n), mult=(lo, n), div=(lo, n), div0=(lo, n, step) optional)"""
     stubs()
     import importlib
-    from migen import Signal
+    from migen import Signal, ClockDomain
     mod = importlib.import_module("litex.soc.cores.clock." + modname)
     cls = getattr(mod, clsname)
 
@@ -106,14 +119,8 @@ def job_xilinx(modname, clsname, ckw, win, nout, margin, tag):
             pll.clkout0_divide_range = (f0, f0 + fn * fs, fs)
         cmin, cmax = getattr(pll, "clkin_freq_range", (10e6, 800e6))
         clkin = ctx.real("clkin", Fraction(cmin), Fraction(cmax))
-        pll.clkin = Signal()
-        pll.clkin_freq = clkin
-        fs_ = []
-        for i in range(nout):
-            f = ctx.real("f%d" % i, Fraction(1e6), Fraction(1000e6))
-            fs_.append(f)
-            pll.clkouts[i] = (Signal(), f, PHASES[i], ctx.exact(margin))
-        pll.nclkouts = nout
+        pll.register_clkin(Signal(), clkin)            # the public API, as a design uses it
+        fs_ = [ctx.real("f%d" % i, Fraction(1e6), Fraction(1000e6)) for i in range(nout)]
         vmin, vmax = pll.vco_freq_range
         vm = pll.vco_margin
         ns = list(range(n0, n0 + nw))
@@ -132,8 +139,10 @@ def job_xilinx(modname, clsname, ckw, win, nout, margin, tag):
                 c.append(within(vco / d, f, margin, slack))
             return AND(*c)
         try:
+            for i in range(nout):
+                pll.create_clkout(ClockDomain("cd%d" % i), fs_[i], phase=PHASES[i], margin=ctx.exact(margin))
             cfg = pll.compute_config()
-        except ValueError:
+        except (ValueError, AssertionError):
             ctx.event("refused")
             anyok = [spec(n, m, ds, -SL) for n in ns for m in ms for ds in itertools.product(*dlists)]
             return dict(refused_only_if_no_setting_in_window=NOT(OR(*anyok)))
@@ -211,14 +220,8 @@ def job_uspmmcm(ckw, win, nout, margin, tag):
         pll.clkout_divide_range = (d0, d0 + dw)
         cmin, cmax = getattr(pll, "clkin_freq_range", (10e6, 800e6))
         clkin = ctx.real("clkin", Fraction(cmin), Fraction(cmax))
-        pll.clkin = Signal()
-        pll.clkin_freq = clkin
-        fs_ = []
-        for i in range(nout):
-            f = ctx.real("f%d" % i, Fraction(1e6), Fraction(1000e6))
-            fs_.append(f)
-            pll.clkouts[i] = (Signal(), f, PHASES[i], ctx.exact(margin))
-        pll.nclkouts = nout
+        pll.register_clkin(Signal(), clkin)            # the public API, as a design uses it
+        fs_ = [ctx.real("f%d" % i, Fraction(1e6), Fraction(1000e6)) for i in range(nout)]
         vmin, vmax = pll.vco_freq_range
         vm = pll.vco_margin
         ns = list(range(n0, n0 + nw))
@@ -262,7 +265,7 @@ def job_uspmmcm(ckw, win, nout, margin, tag):
 
 def job_ice40(win, margin, tag):
     stubs()
-    from migen import Signal
+    from migen import Signal, ClockDomain
     from litex.soc.cores.clock.lattice_ice40 import iCE40PLL
 
     def body(ctx):
@@ -273,19 +276,18 @@ def job_ice40(win, margin, tag):
         pll.divq_range = (q0, q0 + qw)
         cmin, cmax = pll.clki_freq_range
         clkin = ctx.real("clkin", Fraction(cmin), Fraction(cmax))
-        pll.clkin_freq = clkin
+        pll.register_clkin(Signal(), clkin)
         omin, omax = pll.clko_freq_range
         f = ctx.real("f0", Fraction(omin), Fraction(omax))
-        pll.clkouts[0] = (Signal(), f, 0, ctx.exact(margin))
-        pll.nclkouts = 1
         vmin, vmax = pll.vco_freq_range
 
         def spec(r, fb, q, slack):
             vco = clkin / (r + 1) * (fb + 1)
             return AND(vco >= Fraction(vmin) * (1 - slack), vco <= Fraction(vmax) * (1 + slack), within(vco / (2**q), f, margin, slack))
         try:
+            pll.create_clkout(ClockDomain("cd0"), f, margin=ctx.exact(margin))
             cfg = pll.compute_config()
-        except ValueError:
+        except (ValueError, AssertionError):
             ctx.event("refused")
             anyok = [spec(r, fb, q, -SL) for r in range(r0, r0 + rw) for fb in range(f0, f0 + fw) for q in range(q0, q0 + qw)]
             return dict(refused_only_if_no_setting_in_window=NOT(OR(*anyok)))
@@ -299,7 +301,7 @@ def job_ice40(win, margin, tag):
 
 def job_ecp5(win, nout, margin, tag):
     stubs()
-    from migen import Signal
+    from migen import Signal, ClockDomain
     from litex.soc.cores.clock.lattice_ecp5 import ECP5PLL
 
     def body(ctx):
@@ -310,14 +312,9 @@ def job_ecp5(win, nout, margin, tag):
         pll.clkfb_div_range = (b0, b0 + bw)
         cmin, cmax = pll.clki_freq_range
         clkin = ctx.real("clkin", Fraction(cmin), Fraction(cmax))
-        pll.clkin_freq = clkin
+        pll.register_clkin(Signal(), clkin)
         omin, omax = pll.clko_freq_range
-        fs_ = []
-        for i in range(nout):
-            f = ctx.real("f%d" % i, Fraction(omin), Fraction(omax))
-            fs_.append(f)
-            pll.clkouts[i] = (Signal(), f, 0, ctx.exact(margin), False)
-        pll.nclkouts = nout
+        fs_ = [ctx.real("f%d" % i, Fraction(omin), Fraction(omax)) for i in range(nout)]
         vmin, vmax = pll.vco_freq_range
         pmin, pmax = pll.pfd_freq_range
 
@@ -329,8 +326,10 @@ def job_ecp5(win, nout, margin, tag):
                 c.append(within(vco / d, f, margin, slack))
             return AND(*c)
         try:
+            for i in range(nout):
+                pll.create_clkout(ClockDomain("cd%d" % i), fs_[i], phase=0, margin=ctx.exact(margin), uses_dpa=False)
             cfg = pll.compute_config()
-        except ValueError:
+        except (ValueError, AssertionError):
             ctx.event("refused")
             anyok = [spec(ci, co, cb, ds, -SL) for ci in range(i0, i0 + iw) for co in range(o0, o0 + ow) for cb in range(b0, b0 + bw)
                      for ds in itertools.product(range(o0, o0 + ow), repeat=nout)]
